@@ -156,7 +156,7 @@ def run(ctx):
                 "distinct = (operation or move, resulting canonical tree)")
     ctx.assumptions = ["only states at public method boundaries are checked (no mid-update states)",
                        "empty clones and any naming scheme are allowed"]
-    tasks = [{"seed": ctx.seed, "shard": i, "count": 8 if quick else 300, "steps": 50 if quick else 120, "nmax": 8,
+    tasks = [{"seed": ctx.seed, "shard": i, "count": 8 if quick else 300, "steps": 50 if quick else 120, "nmax": 8, "big": 1 if quick else 4, "big_steps": 20,
               "monitors": ["wellformed"]} for i in range(shards)]
     ctx.map("vlib.histrun", "history_task", tasks, timeout=3000)
     tasks = [{"seed": ctx.seed, "shard": i, "count": 10 if quick else 150, "moves": 8} for i in range(shards)]
